@@ -98,6 +98,24 @@ pub struct WorkerCtx {
     pub stats: Stats,
 }
 
+static BEAT: std::sync::Mutex<Option<(PathBuf, std::time::Instant)>> = std::sync::Mutex::new(None);
+
+/// register the journal file of this worker for `beat`
+pub fn set_beat_path(p: PathBuf) {
+    *BEAT.lock().unwrap_or_else(|e| e.into_inner()) = Some((p, std::time::Instant::now()));
+}
+
+/// heartbeat for long enumerations that do not journal every case (at most one write per second)
+pub fn beat() {
+    let mut g = BEAT.lock().unwrap_or_else(|e| e.into_inner());
+    if let Some((p, last)) = g.as_mut() {
+        if last.elapsed() > std::time::Duration::from_secs(1) {
+            let _ = std::fs::write(&*p, b"null");
+            *last = std::time::Instant::now();
+        }
+    }
+}
+
 pub fn mix(seed: u64, prop: &str, shard: usize, salt: u64) -> u64 {
     let mut h = std::collections::hash_map::DefaultHasher::new();
     // DefaultHasher::new() uses fixed keys: stable within a toolchain
